@@ -667,6 +667,12 @@ func TestC09Conservation(t *testing.T) {
 		if leak != "" {
 			rt.Fatalf("goroutines left behind: %s", leak)
 		}
+		if d := sim.PoolDuplicate(); d != "" {
+			// (depends on the state of a process-wide pool: rapid cannot replay it
+			// and says "flaky"; the text goes to the output as well)
+			fmt.Printf("after the case: %s\n", d)
+			rt.Fatalf("after the case: %s", d)
+		}
 		var l []string
 		for k := range w.labels {
 			l = append(l, k)
